@@ -27,7 +27,7 @@ def main():
             r = u.run(to)
             print(u.uid, "error=", r.error, "covers=", r.covers, r.cover_failures, "wall=%.1f" % r.wall)
             for ob in r.obligations:
-                print("  %-8s %-10s %6.2fs %s %s" % (ob["status"], ob["backend"], ob["secs"], ob["name"], ob.get("model") if ob["status"] == "failed" else ""))
+                print("  %-8s %-10s %6.2fs %s %s" % (ob["status"], ob["backend"], ob["secs"], ob["name"], (str(ob.get("model")) + " " + str(ob.get("note") or "")) if ob["status"] != "proved" else ""))
                 if ob["status"] == "failed" and ob.get("replay"):
                     print("      replay:", str(ob["replay"])[:700])
 main()
